@@ -81,7 +81,7 @@ def symbols_matching(goto_file, pattern):
     p = run(["goto-instrument", "--list-goto-functions", goto_file])
     out = []
     for line in p.stdout.splitlines():
-        m = re.match(r"^(\S+) /\* (\S+) \*/", line)
+        m = re.match(r"^(.*) /\* (\S+) \*/\s*$", line)
         name = None
         if m:
             name = m.group(2)
